@@ -452,13 +452,16 @@ def model_and_replay(rep: Report, mods, t: str, rng: random.Random, stats: dict)
 
 
 # ------------------------------------------------------------------------------------------ part (c): the real pool
-def _real_pool_run(mods, files: Dict[str, str], order: List[str], n_cores: int, max_passes: int):
+def _real_pool_run(mods, files: Dict[str, str], order: List[str], n_cores: int, max_passes: int, opts: dict = None):
     tmp = os.path.realpath(tempfile.mkdtemp(prefix="verif-c06-real-"))
     try:
         write_tree(tmp, files)
         os.chdir(tmp)
         try:
-            ret = ("ok", bool(mods["main"].format_files([Path(tmp, rel) for rel in order], n_cores=n_cores, max_passes=max_passes)))
+            kw = dict(opts or {})
+            if "preserved" in kw:
+                kw["preserved_filenames"] = [Path(tmp, rel) for rel in kw.pop("preserved")]
+            ret = ("ok", bool(mods["main"].format_files([Path(tmp, rel) for rel in order], n_cores=n_cores, max_passes=max_passes, **kw)))
         except Exception as exc:  # noqa: BLE001
             ret = ("raised", f"{type(exc).__name__}: {exc}")
         return {"ret": ret, "tree": read_tree(tmp, files)}
@@ -470,7 +473,7 @@ def _real_pool_run(mods, files: Dict[str, str], order: List[str], n_cores: int, 
 def _real_slice(conn, jobs):
     try:
         mods = import_pyrefact()
-        conn.send(("ok", [(j["id"], _child(_real_pool_run, mods, j["files"], j["order"], j["n_cores"], j["max_passes"])) for j in jobs]))
+        conn.send(("ok", [(j["id"], _child(_real_pool_run, mods, j["files"], j["order"], j["n_cores"], j["max_passes"], j.get("opts"))) for j in jobs]))
     except BaseException as exc:  # noqa: BLE001
         conn.send(("raised", f"{type(exc).__name__}: {exc}"))
 
@@ -506,6 +509,16 @@ def real_pool(rep: Report, mods, t: str, rng: random.Random, stats: dict):
                 j = {"id": len(jobs), "files": files, "order": order, "n_cores": n_cores, "max_passes": max_passes}
                 jobs.append(j)
                 meta[j["id"]] = (ti, max_passes, f"n_cores={n_cores}")
+        # the options of the run reach every file whatever the number of workers: safe mode, files given as preserved
+        some = sorted(files)[1::3]
+        for oi, opts in enumerate(({"safe": True}, {"preserved": some}, {"safe": True, "preserved": some})):
+            base = {"id": len(jobs), "files": files, "order": sorted(files), "n_cores": 1, "max_passes": 1, "opts": opts}
+            jobs.append(base)
+            meta[base["id"]] = ((ti, oi), 1, "reference")
+            for n_cores in (2, 5):
+                j = {"id": len(jobs), "files": files, "order": sorted(files), "n_cores": n_cores, "max_passes": 1, "opts": opts}
+                jobs.append(j)
+                meta[j["id"]] = ((ti, oi), 1, f"n_cores={n_cores}, {sorted(opts)}")
     ctx = mp.get_context("fork")
     procs = 4
     running = []
@@ -539,7 +552,7 @@ def real_pool(rep: Report, mods, t: str, rng: random.Random, stats: dict):
             diff = sorted(k for k in r["tree"] if r["tree"][k] != ref["tree"][k])
             rep.violation(f"format_files({label}, max_passes={max_passes}, shuffled list) differs from the sequential sorted run "
                           f"(files {diff}, return {r['ret']} vs {ref['ret']})",
-                          {"files": jobs[jid]["files"], "order": jobs[jid]["order"], "n_cores": jobs[jid]["n_cores"], "max_passes": max_passes,
+                          {"files": jobs[jid]["files"], "order": jobs[jid]["order"], "n_cores": jobs[jid]["n_cores"], "max_passes": max_passes, "options": jobs[jid].get("opts"),
                            "tree": r["tree"], "reference_tree": ref["tree"], "return": r["ret"], "reference_return": ref["ret"]})
 
 
@@ -577,6 +590,15 @@ STRINGY = [
     'LABEL = \'error\'\nOTHER = "error"\nTHIRD = \'\'\'error\'\'\'\n\n\ndef fn(v):\n    unusedThing = v\n    return [LABEL, OTHER, THIRD, \'error\', "error"]\n\n\nprint(fn(1))\n',
     'def classify(x):\n    if x == "a":\n        return 1\n    elif x == "b":\n        return 1\n    elif x == "c":\n        return 2\n    elif x == "d":\n        return 2\n'
     '    else:\n        return 3\n\n\nprint([classify(c) for c in "abcde"])\n',
+    # several additions for one line handed to the direct editor as a SET of nodes (two or more long constants used five times in one function;
+    # two or more generated variables): their order must not come from the iteration order of the set
+    'def report(kind):\n    out = []\n' + "".join('    out.append("a rather long constant text, number one" + kind)\n    out.append(kind + "another quite long constant text (two)")\n'
+                                                         '    out.append(("third", "tuple", "constant", "here") + (kind,))\n' for _ in range(5)) + '    return out\n\n\nprint(len(report("k")))\n',
+    'import sys\n\n\ndef choose(a, b, c):\n    if a > 1:\n        if b > 2:\n            x = 1\n        else:\n            x = 2\n    elif c > 3:\n        if b > 4:\n            x = 3\n'
+    '        else:\n            x = 4\n    else:\n        x = 5\n    return x\n\n\nprint(choose(len(sys.argv), 3, 4))\n',
+    # names that are used but not imported, next to an import group that carries comments: the added imports have one order
+    'import os  # operating system\n# the interpreter\nimport sys\n\nprint(os.sep, sys.maxsize > 0, json.dumps(1), math.pi, re.I, shlex.quote("a"), heapq.heapify, glob.glob)\n',
+    'import os\n\n\ndef run():\n    # the rest is imported lazily\n    return os.sep, json.dumps(1), math.pi, re.I, shlex.quote("a"), heapq.heapify, glob.glob, time.time() > 0\n\n\nprint(run()[:4])\n',
 ]
 
 
